@@ -77,6 +77,7 @@ class FnDirective:
     decreases: list[Clause] = field(default_factory=list)
     loops: dict[int, LoopSpec] = field(default_factory=dict)
     before: list[tuple[str, int, list[tuple[str, int]]]] = field(default_factory=list)
+    before_kind: list[str] = field(default_factory=list)
     drop_dassert: dict[int, str] = field(default_factory=dict)
     cuts: list[tuple[str, str, str, int]] = field(default_factory=list)
     external_body: bool = False
@@ -242,6 +243,7 @@ def parse_template(path: str):
                     d.loops[cur_loop.ordinal] = cur_loop
                 elif section == 'before':
                     d.before.append((cur_before[0], cur_before[1], sect_lines))
+                    d.before_kind.append(cur_before[2])
                 section, sect_lines, cur_loop, cur_before = None, [], None, None
 
             while i < len(lines):
@@ -296,12 +298,12 @@ def parse_template(path: str):
                 elif key == 'loop':
                     section = 'loop'
                     cur_loop = LoopSpec(ordinal=int(arg.strip()))
-                elif key == 'before':
+                elif key in ('before', 'exec_before'):
                     m = re.match(r'^"((?:[^"\\]|\\.)*)"\s*(?:#(\d+))?\s*$', arg.strip())
                     if not m:
-                        raise LostAnchor(f'template line {tl2}: before "<anchor>" [#n]')
+                        raise LostAnchor(f'template line {tl2}: {key} "<anchor>" [#n]')
                     section = 'before'
-                    cur_before = (_unesc(m.group(1)), int(m.group(2) or 0))
+                    cur_before = (_unesc(m.group(1)), int(m.group(2) or 0), 'exec' if key == 'exec_before' else 'proof')
                 elif key == 'cut':
                     m = re.match(r'^"((?:[^"\\]|\\.)*)"\s*\.\.\s*"((?:[^"\\]|\\.)*)"\s*=>\s*"((?:[^"\\]|\\.)*)"\s*$', arg.strip())
                     if not m:
@@ -480,6 +482,11 @@ def rewrite_body(rf: RepoFile, it: Item, d: FnDirective, rules: dict, info: FnIn
     ct = code_tokens(toks)
     edits: list[Edit] = []
     body_open_idx = next(i for i, t in enumerate(ct) if t.start == it.body_open)
+    # anchors never match inside comments (an insertion there could un-comment code)
+    comment_ranges = [(t.start - base, t.end - base) for t in toks if t.kind in ('lcomment', 'bcomment')]
+
+    def in_comment(pos: int) -> bool:
+        return any(lo <= pos < hi for lo, hi in comment_ranges)
 
     # strip comments inside (doc comments inside fn bodies are harmless; keep ordinary comments)
     # R2 / R3: macros
@@ -598,7 +605,25 @@ def rewrite_body(rf: RepoFile, it: Item, d: FnDirective, rules: dict, info: FnIn
         j, k = loops[ordn]
         ins = ''
         first_tl = spec.lines[0][1] if spec.lines else d.tline
-        ins = '\n' + '\n'.join(raw for raw, _ in spec.lines) + '\n'
+        body_lines = []
+        for raw, l2 in spec.lines:
+            w = raw.strip().split()
+            if len(w) == 2 and w[0] == 'iter':
+                # name the ghost iterator of a `for` loop:  for pat in EXPR  ->  for pat in NAME: EXPR
+                if ct[j].text != 'for':
+                    raise LostAnchor(f'{rf.rel}: {d.selector}: loop {ordn}: iter given on a non-for loop')
+                q = j + 1
+                while q < k and not (ct[q].kind == 'ident' and ct[q].text == 'in'):
+                    if ct[q].kind == 'punct' and ct[q].text in rustscan.OPEN:
+                        q = match_close(ct, q)
+                    q += 1
+                if q >= k:
+                    raise LostAnchor(f'{rf.rel}: {d.selector}: loop {ordn}: no `in` found')
+                edits.append(Edit(ct[q].end - base, ct[q].end - base, f' {w[1]}:', ('tmpl', l2, 'loop', ordn)))
+                rules['R5_iter_named'] = rules.get('R5_iter_named', 0) + 1
+            else:
+                body_lines.append((raw, l2))
+        ins = '\n' + '\n'.join(raw for raw, _ in body_lines) + '\n'
         edits.append(Edit(ct[k].start - base, ct[k].start - base, ins, ('tmpl', first_tl, 'loop', ordn)))
     if d.loops:
         unspecified = [n for n in range(len(loops)) if n not in d.loops]
@@ -608,7 +633,7 @@ def rewrite_body(rf: RepoFile, it: Item, d: FnDirective, rules: dict, info: FnIn
     # before-anchors (searched in body text)
     body_lo = it.body_open - base
     for anchor, nth, plines in d.before:
-        occ = [m.start() for m in re.finditer(re.escape(anchor), text) if m.start() > body_lo]
+        occ = [m.start() for m in re.finditer(re.escape(anchor), text) if m.start() > body_lo and not in_comment(m.start())]
         if nth == 0:
             if len(occ) != 1:
                 raise LostAnchor(f'{rf.rel}: {d.selector}: before-anchor {anchor!r} found {len(occ)} times (need 1)')
@@ -619,15 +644,20 @@ def rewrite_body(rf: RepoFile, it: Item, d: FnDirective, rules: dict, info: FnIn
             pos = occ[nth - 1]
         ins = '\n'.join(raw for raw, _ in plines) + '\n'
         edits.append(Edit(pos, pos, ins, ('tmpl', plines[0][1] if plines else d.tline, 'hint')))
-        rules['hints'] = rules.get('hints', 0) + 1
+        kind = d.before_kind[d.before.index((anchor, nth, plines))] if d.before_kind else 'proof'
+        if kind == 'exec':
+            rules['R6_inserted_stmts'] = rules.get('R6_inserted_stmts', 0) + 1
+            rules.setdefault('R6_lines', []).append(f'{rf.rel}:{rf.line_of(base + pos)} inserted before {anchor!r}: ' + ' '.join(r.strip() for r, _ in plines))
+        else:
+            rules['hints'] = rules.get('hints', 0) + 1
 
     # R8 cut ranges are located first: text inside a cut is invisible to substitutions
     cut_ranges: list[tuple[int, int]] = []
     for frm, until, repl, tl in d.cuts:
-        occ_a = [m.start() for m in re.finditer(re.escape(frm), text) if m.start() >= body_lo]
+        occ_a = [m.start() for m in re.finditer(re.escape(frm), text) if m.start() >= body_lo and not in_comment(m.start())]
         if len(occ_a) != 1:
             raise LostAnchor(f'{rf.rel}: {d.selector}: cut start anchor {frm!r} found {len(occ_a)} times (need 1)')
-        occ_b = [m.start() for m in re.finditer(re.escape(until), text) if m.start() > occ_a[0]]
+        occ_b = [m.start() for m in re.finditer(re.escape(until), text) if m.start() > occ_a[0] and not in_comment(m.start())]
         if len(occ_b) < 1:
             raise LostAnchor(f'{rf.rel}: {d.selector}: cut end anchor {until!r} not found after start')
         cut_ranges.append((occ_a[0], occ_b[0]))
@@ -635,7 +665,7 @@ def rewrite_body(rf: RepoFile, it: Item, d: FnDirective, rules: dict, info: FnIn
     subst_ranges: list[tuple[int, int]] = []
     for a, b, tl, many in d.subst:
         occ = [m.start() for m in re.finditer(re.escape(a), text) if m.start() >= body_lo
-               and not any(lo <= m.start() < hi for lo, hi in cut_ranges)]
+               and not any(lo <= m.start() < hi for lo, hi in cut_ranges) and not in_comment(m.start())]
         if (not many and len(occ) != 1) or (many and not occ):
             raise LostAnchor(f'{rf.rel}: {d.selector}: R6 substitution {a!r} matched {len(occ)} times')
         for p in occ:
